@@ -321,8 +321,25 @@ def _run_task_guard_false(ctx):
     return [("", g if acts else TRUE)]
 
 
+def _run_task_never_swallowed(ctx):
+    """C05 (no stage of a finished workflow is left running / nothing silently stuck): a RunTask addressed to a task that
+    was loaded RUNNING is never consumed without handing the task on -- to user code and a result helper, or to a durable
+    CompleteTask / PauseTask / RunTask message.  A handling that only marks the message is legal only when the task was
+    not RUNNING."""
+    if ctx.exc is not None:
+        return []
+    g = task_guard(ctx, "RUNNING")
+    if g is None:
+        return []
+    ok_txn = {t.tid for t in T.transactions(ctx.st.effects) if t.committed}
+    handed = [e for e, _ in T.flat(ctx.st.effects) if e.kind in ("task_execute", "delegate", "queue_push")
+              or (e.kind == "push" and e.data["txn"] in ok_txn and not e.data.get("cls", "").startswith("Invalid"))]
+    return [("", TRUE if handed else z3.Not(g))]
+
+
 def run_task():
     obls = [
+        Obl("C05/T5/RunTask.handle", _run_task_never_swallowed, when="any"),
         Obl("C02/guard/RunTask", _run_task_guard_false, when="any"),
         Obl("C02/gate/RunTask", _run_task_gate, when="any"),
         Obl("C17/run-task-gate", _run_task_gate, when="any"),
@@ -725,6 +742,7 @@ def complete_stage_registry():
 
         t = z3.Const(fresh_name_("determined_status"), ENUMS.sort(WS))
         I.st.assume(t != status(I, "REDIRECT"))
+        I.st.ghost.setdefault("determined", []).append(t)
         return SEnum(WS, t)
 
     reg.contracts["stabilize.models.stage.stage:StageExecution.determine_status"] = determine_status
@@ -842,6 +860,26 @@ def _cs_t2(ctx):
     return goals
 
 
+def _cs_silent_drop(ctx):
+    """C05 (no silent loss of the completion hand-over): when the stage's own work is over (determine_status returned a
+    complete status) and CompleteStage for a stage loaded RUNNING nevertheless ends without any effect other than marking
+    the message (no store, no push, no event), somebody else must still be due to complete the stage: an INITIAL synthetic
+    child of the stage that has not finished (its own completion re-sends CompleteStage to the parent).  A child that is not
+    initial is started only by its sibling's success and justifies nothing -- with a failed sibling it never runs."""
+    I = ctx.I
+    stage = loaded_stage(ctx)
+    if stage is None or ctx.exc is not None:
+        return []
+    acts = [e for e, _ in T.flat(ctx.st.effects) if e.kind in ("store_stage", "push", "update_workflow", "standalone", "queue_push", "event")]
+    det = I.st.ghost.get("determined", [])
+    if acts or not det:
+        return []
+    running = T.loaded_info(I, stage)["status"].t == status(I, "RUNNING")
+    child_due = ctx.ev("exists(execution.stages, lambda s: s.parent_stage_id == stage.id and len(s.requisite_stage_ref_ids) == 0 "
+                       "and not s.status.is_complete)", {"stage": stage, "execution": I.getattr(stage, "execution")})
+    return [("mark-only-needs-an-unfinished-initial-child", z3.Implies(z3.And(running, is_complete(I, det[-1])), child_due))]
+
+
 def _cs_events(ctx):
     """C13/C12: a commit that stores a complete status for the stage records its completion event inside the same
     transaction (when a recorder is configured), and the event is never recorded outside a transaction."""
@@ -875,6 +913,7 @@ def complete_stage():
         Obl("C03/push/continuable-only", _cs_downstream_only_when_continuable, when="any"),
         Obl("C05/T2/CompleteStage", _cs_t2, when="any"),
         Obl("C05/T2b/CompleteStage", P.no_push_after_commit, when="any"),
+        Obl("C05/no-silent-drop/CompleteStage", _cs_silent_drop, when="any"),
         Obl("C06/T3/CompleteStage", P.t3_legal_write(), when="any"),
         Obl("C06/stage-never-redirect/CompleteStage", P.stage_status_never_redirect, when="any"),
         Obl("C13/T4/CompleteStage", _cs_events, when="any", scenario="d6b_complete_stage_error_path_event.py"),
